@@ -40,6 +40,9 @@ pub enum Gap {
 pub enum LEv {
     Arrive { key: u8, gap: Gap, tokens: u8 },
     Prune,
+    /// `n` further sources, each seen for the first time, send one datagram each at the current time
+    /// (a table of far more keys than the usual handful)
+    Crowd { n: u16 },
 }
 
 #[derive(Clone, Debug, PartialEq, Eq, Hash, Serialize, Deserialize)]
@@ -55,11 +58,11 @@ pub struct LimCase {
 struct RefBucket {
     tau: u128,
     t: u128,
-    state: HashMap<u8, (u128, u128)>, // key -> (credit, last time)
+    state: HashMap<u32, (u128, u128)>, // key -> (credit, last time)
 }
 
 impl RefBucket {
-    fn allows(&mut self, now: u128, key: u8, tokens: u128) -> bool {
+    fn allows(&mut self, now: u128, key: u32, tokens: u128) -> bool {
         let cost = self.t * tokens;
         if cost > self.tau {
             return false;
@@ -88,32 +91,48 @@ pub fn run_limiter(c: &LimCase) -> CaseReport {
         }
     }
     let quota = || Quota::verif_new(Duration::from_nanos(tau), n);
-    let mut real: Limiter<u8> = match Limiter::from_quota(quota()) {
+    let mut real: Limiter<u32> = match Limiter::from_quota(quota()) {
         Ok(l) => l,
         Err(e) => {
             rep.fail("limiter/constructor-rejected-valid-quota", format!("from_quota({n} per {tau} ns) failed: {e}"));
             return rep;
         }
     };
-    let mut real_noprune: Limiter<u8> = Limiter::from_quota(quota()).expect("same quota");
+    let mut real_noprune: Limiter<u32> = Limiter::from_quota(quota()).expect("same quota");
     let t_eff = (tau / n) as u128;
     let mut model = RefBucket { tau: tau as u128, t: t_eff, state: HashMap::new() };
     let mut now: u64 = 0;
-    let mut accepted: HashMap<u8, Vec<u64>> = HashMap::new();
+    let mut accepted: HashMap<u32, Vec<u64>> = HashMap::new();
     let mut single_token_only = true;
     let mut refused_then_accepted_with_prune = false;
-    let mut refused: HashMap<u8, bool> = HashMap::new();
-    let mut pruned_since_refusal: HashMap<u8, bool> = HashMap::new();
+    let mut refused: HashMap<u32, bool> = HashMap::new();
+    let mut pruned_since_refusal: HashMap<u32, bool> = HashMap::new();
+    // crowds are expanded into single arrivals of fresh keys
+    let mut flat: Vec<(Option<(u32, Gap, u8)>, bool)> = Vec::new();
+    let mut next_fresh: u32 = 1000;
     for ev in &c.events {
         match ev {
-            LEv::Prune => {
+            LEv::Prune => flat.push((None, true)),
+            LEv::Arrive { key, gap, tokens } => flat.push((Some((*key as u32, *gap, *tokens)), false)),
+            LEv::Crowd { n } => {
+                rep.class(if *n > 1024 { "limiter-crowd>1024-fresh-keys" } else { "limiter-crowd" });
+                for _ in 0..*n {
+                    flat.push((Some((next_fresh, Gap::Zero, 1)), false));
+                    next_fresh += 1;
+                }
+            }
+        }
+    }
+    for ev in &flat {
+        match ev {
+            (None, _) => {
                 real.prune(Duration::from_nanos(now));
                 for v in pruned_since_refusal.values_mut() {
                     *v = true;
                 }
                 rep.count("prunes", 1);
             }
-            LEv::Arrive { key, gap, tokens } => {
+            (Some((key, gap, tokens)), _) => {
                 let g: u64 = match gap {
                     Gap::Zero => 0,
                     Gap::BelowT(f) => ((t as u128 * *f as u128) >> 16) as u64,
@@ -512,6 +531,7 @@ pub fn run_unban(c: &UnbanCase) -> CaseReport {
             foreign_enr_answer: vec![],
             v_session_timeout_ms: None,
             v_session_capacity: None,
+            v_dual_listen: false,
         };
         let mut w = World::new(cfg).await;
         let t0 = Instant::now();
@@ -813,8 +833,16 @@ fn lim_strategy(max: usize) -> BoxedStrategy<LimCase> {
             .prop_map(|(key, gap, tokens)| LEv::Arrive { key, gap, tokens }),
         2 => Just(LEv::Prune),
     ];
-    (1u8..=32, t, prop_oneof![3 => Just(0u8), 1 => 0u8..32], proptest::collection::vec(ev, 1..max))
-        .prop_map(|(n, t_ns, extra, events)| LimCase { n, t_ns, extra, events })
+    // one case in 16 has a crowd of fresh sources somewhere in the sequence
+    let crowd = prop_oneof![15 => Just(None), 1 => (any::<u16>(), prop_oneof![1 => 1u16..300, 2 => 1030u16..3000]).prop_map(Some)];
+    (1u8..=32, t, prop_oneof![3 => Just(0u8), 1 => 0u8..32], proptest::collection::vec(ev, 1..max), crowd)
+        .prop_map(|(n, t_ns, extra, mut events, crowd)| {
+            if let Some((at, k)) = crowd {
+                let pos = (at as usize * (events.len() + 1)) >> 16;
+                events.insert(pos, LEv::Crowd { n: k });
+            }
+            LimCase { n, t_ns, extra, events }
+        })
         .boxed()
 }
 
